@@ -302,8 +302,10 @@ pub(super) fn derive_schema(input: TokenStream) -> syn::Result<TokenStream> {
                     type_schemas.push(schema)
                 }
 
+                /* `anyOf`: two elements may well have the same (or overlapping) types,
+                   and then no value matches *exactly one* of them */
                 Ok(quote! {
-                    ::ohkami::openapi::array(::ohkami::openapi::oneOf(
+                    ::ohkami::openapi::array(::ohkami::openapi::anyOf(
                         (#(#type_schemas,)*)
                     ))
                 })
@@ -453,11 +455,21 @@ pub(super) fn derive_schema(input: TokenStream) -> syn::Result<TokenStream> {
                 variant_schemas.push(schema)
             }
 
-            Ok(quote! {
-                ::ohkami::openapi::oneOf(
-                    ( #(#variant_schemas,)* )
-                )
-            })
+            if container_attrs.serde.untagged {
+                /* the shapes of untagged variants may overlap (serde takes the first
+                   that fits), and then no value matches *exactly one* of them */
+                Ok(quote! {
+                    ::ohkami::openapi::anyOf(
+                        ( #(#variant_schemas,)* )
+                    )
+                })
+            } else {
+                Ok(quote! {
+                    ::ohkami::openapi::oneOf(
+                        ( #(#variant_schemas,)* )
+                    )
+                })
+            }
         }
     }
 }
